@@ -4,6 +4,7 @@ pub mod c12;
 pub mod c18;
 pub mod c20;
 pub mod gds;
+pub mod lef;
 pub mod c13;
 pub mod c14;
 pub mod c15;
@@ -16,6 +17,9 @@ pub fn gen(prop: &str, thorough: bool, seed: u64, out: &mut Vec<String>) {
         "C01" | "C02" => gds::gen_c01(thorough, &mut rng, out),
         "C03" => gds::gen_c03(thorough, &mut rng, out),
         "C10" => gds::gen_c10(thorough, &mut rng, out),
+        "C04" => lef::gen_c04(thorough, &mut rng, out),
+        "C05" => lef::gen_c05(thorough, &mut rng, out),
+        "C11" => lef::gen_c11(thorough, &mut rng, out),
         "C06" => c0607::gen_c06(thorough, &mut rng, out),
         "C07" => c0607::gen_c07(thorough, &mut rng, out),
         "C09" => c09::gen(thorough, &mut rng, out),
@@ -36,6 +40,9 @@ pub fn oracle(prop: &str, line: &str) -> String {
         "C02" => gds::oracle_c02(line),
         "C03" => gds::oracle_c03(line),
         "C10" => gds::oracle_c10(line),
+        "C04" => lef::oracle_c04(line),
+        "C05" => lef::oracle_c05(line),
+        "C11" => lef::oracle_c11(line),
         "C06" => c0607::oracle_c06(line),
         "C07" => c0607::oracle_c07(line),
         "C09" => c09::oracle(line),
@@ -54,6 +61,7 @@ pub fn oracle(prop: &str, line: &str) -> String {
 pub fn tag(prop: &str, line: &str) -> String {
     match prop {
         "C01" | "C02" | "C03" | "C10" => gds::tag(line),
+        "C04" | "C05" | "C11" => lef::tag(line),
         "C06" | "C07" => c0607::tag(line),
         "C09" => c09::tag(line),
         "C12" => c12::tag(line),
